@@ -93,6 +93,7 @@ type Case struct {
 	NoProc  bool     `json:"no_proc,omitempty"` // index driver only (exhaustive enumeration)
 	Wide    bool     `json:"wide,omitempty"`    // evidence label only
 	Note    string   `json:"note,omitempty"`    // evidence label only
+	Reused  bool     `json:"reused,omitempty"`  // the processor had an earlier life: a rule set which matches none of the events, all events processed (none triggers), Finish, Reset - then the case
 }
 
 func TestMain(m *testing.M) {
@@ -800,6 +801,27 @@ func driveProcessor(c Case, ms []evModel) *hx.Failure {
 	}
 	rc := &recorder{}
 	proc := engine.NewProcessor(workers)
+	if c.Reused {
+		// whatever the first life left behind (cached "does not trigger" answers, index entries) must be gone after Reset
+		if f := hx.Guard(func() {
+			proc.AddRule(&engine.Rule{Name: "earlier-life", KindMatch: []string{"c01-no-such-kind.zz"}, ScopeMatch: []string{},
+				Action: func(p engine.Processor, m engine.Monitor, e *engine.Event, tid uint64) error { return nil }})
+			proc.Start()
+			for _, e := range c.Events {
+				ev := mkEvent(e)
+				proc.IsTriggering(ev)
+				proc.AddEventAndWait(ev, proc.NewRootMonitor(nil, mkScope(e)))
+			}
+			proc.Finish()
+			if err := proc.Reset(); err != nil {
+				panic(err)
+			}
+		}); f != nil {
+			f.Msg = "earlier life of the processor (one rule matching nothing, the same events, Finish, Reset): " + f.Msg
+			return f
+		}
+		hx.E.Class("processor.reused-after-reset", 1)
+	}
 	var addErr error
 	if f := hx.Guard(func() {
 		for _, r := range c.Rules {
